@@ -32,3 +32,31 @@ def scenario_stale_snapshot_across_runs():
 
 if __name__ == "__main__":
     print(scenario_stale_snapshot_across_runs())
+
+
+def scenario_output_already_safe_before_the_pause():
+    """an output whose pre-pause value EQUALS its safe value and that is changed while paused must be restored by Unpause"""
+    from openpectus.test.engine.test_engine import create_engine
+    e = create_engine()
+
+    def tick(n=1):
+        for _ in range(n):
+            e.tick(time.time(), 0.1)
+    try:
+        e.schedule_execution("Start"); tick(2)
+        danger = e.uod.tags["Danger"]
+        reg = [r for r in e.uod.hwl.registers.values() if r.name == "Danger"][0]
+        safe = reg._options["safe_value"]
+        danger.set_value(safe, e._tick_time)                    # the output already holds its safe value before the pause
+        e.schedule_execution("Pause"); tick(2)
+        danger.set_value(not safe, e._tick_time)                # changed while paused (a user command does this)
+        tick(1)
+        e.schedule_execution("Unpause"); tick(2)
+        after = danger.get_value()
+        return {"violated": after != safe, "Danger_before_pause": safe, "changed_during_pause_to": (not safe), "Danger_after_unpause": after,
+                "scenario": "output equal to its safe value before Pause, changed during the pause, Unpause must restore the pre-pause value"}
+    finally:
+        try:
+            e.cleanup()
+        except Exception:
+            pass
